@@ -13,6 +13,7 @@ import YalafiVerif.Proofs.Inv.Tex2txt
 import YalafiVerif.Generated.WF
 import YalafiVerif.Proofs.PlainUnknown
 import YalafiVerif.Generated.Init
+import YalafiVerif.Properties.PlainUnkn2Stmt
 namespace Yalafi
 
 /-- what `addUnknown` does to the state -/
